@@ -50,6 +50,10 @@ structure Source where
   afterEnd : Nat := 0
   /-- ghost: total number of bytes handed out (pre + inner) -/
   delivered : Nat := 0
+  /-- ghost: number of inner calls that were not `Interrupted` -/
+  prod : Nat := 0
+  /-- ghost: number of bytes handed out by the most recent call (0 for EOF / error / lie) -/
+  lastGive : Nat := 0
 deriving Repr, Inhabited
 
 namespace Source
@@ -59,18 +63,19 @@ def deliver (s : Source) (n cap : Nat) : ReadRes × Source :=
   let k := min (min n cap) s.data.length
   if k = 0 then
     if s.data.isEmpty then
-      (if s.fault then .err else .data [], { s with ended := true })
+      (if s.fault then .err else .data [], { s with ended := true, prod := s.prod + 1, lastGive := 0 })
     else
       -- zero-length slice: a `Read` impl returns `Ok(0)` without consuming anything
-      (.data [], s)
+      (.data [], { s with prod := s.prod + 1, lastGive := 0 })
   else
-    (.data (s.data.take k), { s with data := s.data.drop k, delivered := s.delivered + k })
+    (.data (s.data.take k), { s with data := s.data.drop k, delivered := s.delivered + k,
+                                     prod := s.prod + 1, lastGive := k })
 
 /-- One `read` call with a slice of `cap` bytes. -/
 def read (s : Source) (cap : Nat) : ReadRes × Source :=
   if !s.pre.isEmpty then
     let k := min cap s.pre.length
-    (.data (s.pre.take k), { s with pre := s.pre.drop k, delivered := s.delivered + k })
+    (.data (s.pre.take k), { s with pre := s.pre.drop k, delivered := s.delivered + k, lastGive := k })
   else
     let s := { s with calls := s.calls + 1,
                       afterEnd := if s.ended then s.afterEnd + 1 else s.afterEnd }
@@ -78,7 +83,8 @@ def read (s : Source) (cap : Nat) : ReadRes × Source :=
     | .intr :: rest => (.intr, { s with sched := rest })
     | .lie x :: rest =>
         let k := min cap s.data.length
-        (.lie (cap + 1 + x), { s with sched := rest, data := s.data.drop k })
+        (.lie (cap + 1 + x), { s with sched := rest, data := s.data.drop k, prod := s.prod + 1,
+                                      lastGive := 0 })
     | .give n :: rest => deliver { s with sched := rest } (max n 1) cap
     | [] => deliver s cap cap
 
